@@ -92,8 +92,11 @@ package ethnode
 //@ defines [log] trlen == old(trlen) + 1 && trarg == upd(old(trarg), old(trlen), nodeID)
 //@ modifies trlen, trarg
 
+// lastLocalPeers: what the node most recently reported as its connected peers (ghost)
+//@ ghost var lastLocalPeers []PeerInfo
 //@ interface ethnode.EthNode.Peers(ctx) (result, err)
-//@ modifies nothing
+//@ defines [last] err == nil ==> lastLocalPeers == result
+//@ modifies lastLocalPeers
 
 //@ interface ethnode.EthNode.BlockNumber(ctx) (result, err)
 //@ modifies nothing
